@@ -146,6 +146,11 @@ func (s *EncryptionSession) initFinalize(reverse bool, keyContext string) error 
 		return errors.New("invalid key context")
 	}
 
+	// Check if the key exchange was started on this session.
+	if s.kxRouterPrivate == nil || s.kxRemotePublic == nil {
+		return errors.New("key exchange keys are missing")
+	}
+
 	// Compute shared key.
 	sharedKey, err := s.kxRouterPrivate.ECDH(s.kxRemotePublic)
 	if err != nil {
